@@ -53,18 +53,20 @@ func verifRunTimers(c *verifTCase) {
 	ctx, cancel := context.WithCancel(context.Background())
 	defer cancel()
 	var ts *Timers
-	var doStep func(st verifTStep, who string)
-	emitter := func(ctx context.Context, m interface{}) error {
+	var doStep func(ctx context.Context, st verifTStep, who string)
+	emitter := func(ectx context.Context, m interface{}) error {
 		mm, _ := m.(map[string]interface{})
 		tag, _ := mm["tag"].(int)
 		lg.add(map[string]interface{}{"ev": "fire", "tag": tag})
+		// the handler of a firing message works under the context the timers hand to the emitter
+		// (Service.Process passes it on to the requests the handler makes)
 		for _, st := range c.OnFire[strconv.Itoa(tag)] {
-			doStep(st, "handler")
+			doStep(ectx, st, "handler")
 		}
 		return nil
 	}
 	ts = NewTimers(emitter)
-	doStep = func(st verifTStep, who string) {
+	doStep = func(ctx context.Context, st verifTStep, who string) {
 		switch st.Do {
 		case "add":
 			before := lg.us(time.Now())
@@ -85,7 +87,7 @@ func verifRunTimers(c *verifTCase) {
 				res = "err"
 			}
 			lg.add(map[string]interface{}{"ev": "rem", "id": st.Id, "res": res, "who": who})
-		case "sleep":
+		case "sleep", "busy":
 			time.Sleep(time.Duration(st.Ms) * time.Millisecond)
 		case "pending":
 			ts.Lock()
@@ -99,7 +101,7 @@ func verifRunTimers(c *verifTCase) {
 		}
 	}
 	for _, st := range c.Script {
-		doStep(st, "requester")
+		doStep(ctx, st, "requester")
 	}
 	lg.Lock()
 	c.Go = map[string]interface{}{"events": lg.events}
